@@ -7,7 +7,7 @@ import pyobs
 import world
 
 NAMES = ['a', 'b', 'c', 'd']
-BADNAMES = ['1x', 'a b', 'class']
+BADNAMES = ['1x', 'a b', 'class', 'x = y', 'a.b', 'a, b', '']
 
 VALS = {
     'KMixed': [0, 1, 2, 3, -1, 7, 2.5, -0.5, float('nan'), float('inf'), 'a', 'b', 'zz', 'A', '', '10', '2.5', 'nan',
@@ -167,6 +167,8 @@ def gen_op(rng, r, weights, bad_rate=0.08, max_pool=7, max_rows=9):
         if k == 'rename':
             old = rng.choice([c[0] for c in cols]) if cols and rng.random() > bad_rate else rng.choice(NAMES)
             new = rng.choice(NAMES + ['e', 'f']) if rng.random() > bad_rate else rng.choice(BADNAMES)
+            if rng.random() < 0.08:
+                new = old          # rename to itself: nothing happens, but a missing column is still an error
             return {'op': 'rename', 't': ti, 'old': old, 'new': new}
         if k == 'concat':
             t2 = rng.randrange(len(P))
